@@ -12,7 +12,7 @@ from ..dataflow import Def
 from ..fold import Folder, RegexConst, single_class
 from ..loader import AnalysisError, FuncInfo, dotted, norm
 from ..report import Ctx
-from ._c14_helpers import Atom, Prov, Unit, nested_defs, or_atoms, own_nodes, parse_atom
+from ._c14_helpers import JOIN, Atom, Prov, Unit, empty_test, helper_atoms, nested_defs, own_nodes, parse_atom
 
 LEVEL_TEXT = (
     "Static decision of structural clauses of C14 on /repo's current source (POSIX path semantics). (R14.1) in "
@@ -22,10 +22,19 @@ LEVEL_TEXT = (
     "starts with '/', equals '..', starts with '../' - plus the alternative-separator test; for the two '..' shapes the "
     "tested variable is the normalised one (reaching definitions; a leading '/' or a separator character is unaffected "
     "by normpath and may be tested on either), each reject edge ends in `return None`, and the result is a join of the "
-    "trusted directory with the survivors only. (R14.2) every filesystem sink (open, os.path.isfile/getmtime/getsize/"
+    "trusted directory with the survivors only. The reject tests are read through their structure, not their spelling: "
+    "an or-chain, a flag variable assigned in the same iteration, or a module-level predicate helper called with the "
+    "component, summarised one level on the helper's CFG (a predicate on the parameter counts when its edge leads only to "
+    "constant returns of one truthiness and no path to the helper's exit avoids it - `return a or b`, sequential early "
+    "returns, an explicit loop over the alternative separators and the negated polarity give the same summary); "
+    "`normpath unless empty` may be a statement or a conditional expression / `x and normpath(x)`. (R14.2) every filesystem sink (open, os.path.isfile/getmtime/getsize/"
     "exists/isdir, os.stat, send_file, open_resource, and one-level pass-through helpers such as _opener) in "
     "utils.send_from_directory and SharedDataMiddleware receives a value built only from trusted configuration and "
-    "safe_join(<trusted base>, ...) results - never the raw request-derived name. (R14.3) every safe_join result is "
+    "safe_join(<trusted base>, ...) results - never the raw request-derived name - and a safe_join result keeps that "
+    "standing only while it is copied, selected (conditional expression / or) or joined by os.path.join / posixpath.join "
+    "with trusted operands: any other call, method call, concatenation, formatting or slicing applied to it AFTER the "
+    "containment check (unquote, normpath, expandvars, replace ...) may re-open the escape and makes the value "
+    "untrusted for every sink it reaches. (R14.3) every safe_join result is "
     "tested for None before any other use and the None edge ends in NotFound / a (None, None) refusal; "
     "SharedDataMiddleware.__call__ calls the opener only under `is not None` and otherwise falls through to the wrapped "
     "app. (R14.4) the value returned by utils.secure_filename has passed a regex deletion whose kept alphabet is ASCII "
@@ -55,7 +64,6 @@ SINK_FQ = {
 }
 SINK_ATTRS = {"open_resource"}
 NORMPATH = {"posixpath.normpath", "os.path.normpath"}
-JOIN = {"posixpath.join", "os.path.join"}
 
 
 # =====================================================================
@@ -75,54 +83,80 @@ def _norm_arg(u: Unit, value: ast.AST | None) -> ast.Name | None:
 
 
 def _roots(u: Unit, name: str, node: Node, depth: int = 0) -> tuple[set[Def], set[Def], set[Def]]:
-    """(root definitions, normpath definitions on the way, raw definitions that reach `node` un-normalised)
-    of variable `name` as seen by expressions evaluated in `node`; a root is any definition that is not
-    `x = normpath(y)`."""
+    """(root definitions, normalising definitions on the way, raw definitions that reach `node` un-normalised)
+    of variable `name` as seen by expressions evaluated in `node`; a root is any definition whose value is not one
+    of the value forms of `_value_form` (copy, normpath, `normpath unless empty` selection)."""
     roots: set[Def] = set()
     norms: set[Def] = set()
     raw: set[Def] = set()
     for d in u.rd.reaching(node, name):
-        a = _norm_arg(u, d.value) if d.kind == "assign" and d.index is None else None
-        if a is not None and d.node is not None and depth < 4:
-            r2, n2, _ = _roots(u, a.id, d.node, depth + 1)
-            roots |= r2
-            norms |= n2 | {d}
-        elif d.kind == "assign" and d.index is None and isinstance(d.value, ast.Name) and d.node is not None and depth < 4:
-            r2, n2, w2 = _roots(u, d.value.id, d.node, depth + 1)  # plain copy `x = y`
-            roots |= r2
-            norms |= n2
-            raw |= w2
-        else:
+        f = None
+        if d.kind in ("assign", "walrus") and d.index is None and d.value is not None and d.node is not None and depth < 4:
+            f = _value_form(u, d.value, d, depth + 1)
+        if f is None:
             roots.add(d)
             raw.add(d)
+        else:
+            roots |= f[0]
+            norms |= f[1]
+            raw |= f[2]
     return roots, norms, raw
+
+
+def _value_form(u: Unit, e: ast.AST, d: Def, depth: int) -> tuple[set[Def], set[Def], set[Def]] | None:
+    """the right-hand side of definition `d` read as a value derived from other names:
+        y                                  plain copy
+        normpath(y)                        normalised by d
+        A if <test> else B  /  y and A     selection; a branch that is `y` under a test that makes y == "" is the
+                                           empty string (needs no normalisation); any other raw value flowing through
+                                           the selection makes d itself a raw definition
+        ""                                 the empty string
+    None: not such a form (d is a root)."""
+    assert d.node is not None
+    if isinstance(e, ast.Name):
+        return _roots(u, e.id, d.node, depth)
+    a = _norm_arg(u, e)
+    if a is not None:
+        r, n, _ = _roots(u, a.id, d.node, depth)
+        return r, n | {d}, set()
+    if isinstance(e, ast.Constant) and e.value == "":
+        return set(), set(), set()
+    if isinstance(e, ast.BoolOp) and isinstance(e.op, ast.And) and len(e.values) == 2 and isinstance(e.values[0], ast.Name):
+        # `y and A`  ==  `A if y else y`
+        e = ast.IfExp(test=e.values[0], body=e.values[1], orelse=e.values[0])
+    if isinstance(e, ast.IfExp):
+        emp = empty_test(e.test)
+        roots: set[Def] = set()
+        norms: set[Def] = set()
+        leak = False
+        for branch, taken in ((e.body, True), (e.orelse, False)):
+            if emp is not None and emp[1] == taken and isinstance(branch, ast.Name) and branch.id == emp[0].id:
+                r, n, _ = _roots(u, branch.id, d.node, depth)  # the value is ""
+                roots |= r
+                norms |= n | {d}
+                continue
+            f = _value_form(u, branch, d, depth + 1) if depth < 6 else None
+            if f is None:
+                return None
+            roots |= f[0]
+            norms |= f[1]
+            leak = leak or bool(f[2])
+        return roots, norms, ({d} if leak else set())
+    return None
 
 
 def _empty_edges(u: Unit, root: Def) -> list[tuple[Node, str]]:
     """edges on which the raw loop element (under any name that is a plain copy of it) is known to be ''."""
     out = []
-
-    def is_raw(e: ast.AST, tn: Node) -> bool:
-        if not isinstance(e, ast.Name):
-            return False
-        roots, norms, raw = _roots(u, e.id, tn)
-        return roots == {root} and not norms and raw == {root}
-
     for tn in u.cfg.tests():
         if tn.kind != "test":
             continue
-        e = tn.ast
-        if is_raw(e, tn):
-            out.append((tn, "F"))
-        elif isinstance(e, ast.Compare) and len(e.ops) == 1:
-            a, op, b = e.left, e.ops[0], e.comparators[0]
-            if isinstance(a, ast.Constant):
-                a, b = b, a
-            if is_raw(a, tn) and isinstance(b, ast.Constant) and b.value == "":
-                if isinstance(op, ast.Eq):
-                    out.append((tn, "T"))
-                elif isinstance(op, ast.NotEq):
-                    out.append((tn, "F"))
+        r = empty_test(tn.ast)
+        if r is None:
+            continue
+        roots, norms, raw = _roots(u, r[0].id, tn)
+        if roots == {root} and not norms and raw == {root}:
+            out.append((tn, "T" if r[1] else "F"))
     return out
 
 
@@ -227,13 +261,15 @@ def _safe_join_rule(ctx: Ctx) -> None:
         for tn in cfg.tests():
             if tn.kind != "test" or not u.inside(tn.ast, loop):
                 continue
-            cands = _atoms_of_test(ctx, u, tn)
+            cands, complete = _atoms_of_test(ctx, u, tn, head)
             if cands is None:
                 if any(isinstance(x, ast.Name) and _roots(u, x.id, tn)[0] == {root} for x in ast.walk(tn.ast)):
                     unknown.append(norm(tn.ast))
                 continue
-            for kind, consts, lab, var, text in cands:
-                roots, norms, raw = _roots(u, var.id, tn)
+            if not complete:
+                unknown.append(norm(tn.ast))
+            for kind, consts, lab, var, text, en in cands:
+                roots, norms, raw = _roots(u, var.id, en)
                 if roots != {root}:
                     continue  # a test about something else
                 # normalised on every path of this iteration? raw loop element may arrive only as ""
@@ -243,12 +279,12 @@ def _safe_join_rule(ctx: Ctx) -> None:
                         normal = False
                     else:
                         r = cfg.reach([head], avoid_nodes=[d.node for d in norms if d.node is not None], avoid_edges=_empty_edges(u, root) + [(head, "F")])
-                        normal = bool(norms) and tn.id not in r
+                        normal = bool(norms) and en.id not in r
                 if kind in ("eq", "in") and set(consts) == {""}:
                     continue  # emptiness test, not a reject atom
                 if not normal:
                     rawtests.append(text)
-                atoms.append(Atom(tn, lab, kind, consts, var, text, normal))
+                atoms.append(Atom(tn, lab, kind, consts, var, text, normal, en))
         n_atoms += len(atoms)
         none_rets = [cfg.node_of(r) for r in astq.returns_of(fn) if r.value is None or astq.is_none(r.value)]
         none_rets = [n for n in none_rets if n is not None]
@@ -259,7 +295,7 @@ def _safe_join_rule(ctx: Ctx) -> None:
             guarding = []
             for a in cover:
                 dom = sn.id not in cfg.reach([head], avoid_edges=[(a.node, a.passlabel)])
-                same = _roots(u, a.var.id, a.node)[0] == w_roots
+                same = _roots(u, a.var.id, a.evalnode)[0] == w_roots
                 if dom and same and (a.normal or not need_norm):
                     guarding.append(a)
             ok = bool(guarding)
@@ -287,29 +323,74 @@ def _ddesc(d: Def) -> str:
     return f"{d.kind} `{norm(d.stmt)[:60]}`" if d.stmt is not None and d.kind != "for" else f"{d.kind} {d.name}"
 
 
-def _atoms_of_test(ctx: Ctx, u: Unit, tn: Node):
-    """reject-atom candidates decided by CFG test node tn: [(kind, consts, label on which it holds, Name, text)];
-    None when the shape is unknown. A call of a module-level helper `f(x)` whose body is `return a or b ...` is
-    expanded one level (the call's true edge is the edge of every disjunct)."""
+def _atoms_of_test(ctx: Ctx, u: Unit, tn: Node, head: Node):
+    """reject-atom candidates decided by CFG test node tn (inside the loop with head `head`):
+    ([(kind, consts, label on which it holds, Name, text, node in which the predicate is evaluated)] | None, complete);
+    None when the shape is unknown; complete=False when only a part of the condition could be interpreted.
+      * a direct predicate on a name (parse_atom);
+      * a call of a module-level predicate helper `f(.., x, ..)`: summarised one level on the helper's CFG
+        (helper_atoms): each predicate on the parameter that forces the helper's result gives an atom on the
+        call's true / false edge;
+      * a flag variable `bad = <condition over the above>` ... `if bad:` whose single definition is executed in
+        every iteration before the test: the predicates that force the condition true / false (De Morgan)."""
     e = tn.ast
+    if isinstance(e, ast.Name):
+        defs = u.rd.reaching(tn, e.id)
+        d = next(iter(defs)) if len(defs) == 1 else None
+        if d is None or d.kind not in ("assign", "walrus") or d.index is not None or d.node is None or d.value is None:
+            return None, True
+        if tn.id in u.cfg.reach([head], avoid_nodes=[d.node]):
+            return None, True  # the flag may stem from an earlier iteration
+        out = []
+        complete = True
+        for v in (True, False):
+            cands, comp = _implied(ctx, u, d.value, v, d.node)
+            complete = complete and comp
+            out += [(kind, consts, "T" if v else "F", var, text, at) for kind, consts, _lab, var, text, at in cands]
+        return (out or None), complete
+    return _leaf_atoms(ctx, u, e, tn)
+
+
+def _implied(ctx: Ctx, u: Unit, e: ast.AST, v: bool, at: Node):
+    """atoms A with  A holds => bool(e) == v  (each single A suffices), helper calls included."""
+    if isinstance(e, ast.UnaryOp) and isinstance(e.op, ast.Not):
+        return _implied(ctx, u, e.operand, not v, at)
+    if isinstance(e, ast.BoolOp):
+        one_suffices = isinstance(e.op, ast.Or) if v else isinstance(e.op, ast.And)
+        out = []
+        complete = True
+        for x in e.values:
+            cands, comp = _implied(ctx, u, x, v, at)
+            complete = complete and comp
+            out += cands
+        return (out if one_suffices or len(e.values) == 1 else []), complete
+    cands, complete = _leaf_atoms(ctx, u, e, at)
+    if cands is None:
+        return [], False
+    return [c for c in cands if (c[2] == "T") == v], complete
+
+
+def _leaf_atoms(ctx: Ctx, u: Unit, e: ast.AST, at: Node):
     p = parse_atom(u, e)
     if p is not None:
-        return [(p[0], p[1], p[2], p[3], norm(e))]
-    if isinstance(e, ast.Call) and isinstance(e.func, ast.Name) and len(e.args) == 1 and isinstance(e.args[0], ast.Name) and not e.keywords:
+        return [(p[0], p[1], p[2], p[3], norm(e), at)], True
+    if isinstance(e, ast.Call) and isinstance(e.func, ast.Name) and e.args and not e.keywords and not any(isinstance(a, ast.Starred) for a in e.args):
         h = u.module.functions.get(e.func.id)
-        if h is not None and len(h.params) == 1:
-            body = [s for s in h.node.body if not (isinstance(s, ast.Expr) and isinstance(s.value, ast.Constant))]
-            if len(body) == 1 and isinstance(body[0], ast.Return) and body[0].value is not None:
-                ctx.saw(h)
-                hu = Unit(ctx.repo, h, h.node, h.qualname)
-                out = []
-                for at in or_atoms(body[0].value):
-                    q = parse_atom(hu, at)
-                    if q is None or q[3].id != h.params[0] or q[2] != "T":
-                        continue
-                    out.append((q[0], q[1], "T", e.args[0], f"{e.func.id}: {norm(at)}"))
-                return out or None
-    return None
+        pos = [x.arg for x in h.node.args.posonlyargs + h.node.args.args] if h is not None else []
+        if h is not None and u.resolve(e.func) == f"{u.module.name}.{e.func.id}" and len(e.args) <= len(pos):
+            ctx.saw(h)
+            hu = Unit(ctx.repo, h, h.node, h.qualname)
+            out = []
+            complete = True
+            for i, a in enumerate(e.args):
+                if not isinstance(a, ast.Name):
+                    continue
+                atoms, comp = helper_atoms(hu, pos[i])
+                complete = complete and comp
+                for v, kind, consts, text in atoms:
+                    out.append((kind, consts, "T" if v else "F", a, f"{e.func.id}: {text}", at))
+            return (out or None), complete
+    return None, True
 
 
 # =====================================================================
@@ -370,7 +451,7 @@ def _sinks_rule(ctx: Ctx) -> None:
     n_sinks = n_sj = n_none = n_use = 0
     for u in units:
         is_sj = _is_safe_join_call(u)
-        prov = Prov(u, is_sj)
+        prov = Prov(u, is_sj, lambda c, u=u: _is_primitive_sink(u, c))
         cfg, rd = u.cfg, u.rd
         for c in sorted((n for n in own_nodes(u.node) if isinstance(n, ast.Call)), key=lambda n: (n.lineno, n.col_offset)):
             node = cfg.node_of(c)
@@ -764,7 +845,7 @@ def _secure_filename_rule(ctx: Ctx) -> None:
 
 def run(ctx: Ctx) -> None:
     ctx.rule("R14.1", "safe_join: every appended component is an element of *pathnames that passed, after posixpath.normpath and on the same variable, reject tests covering 'starts with /', '== ..', 'starts with ../' (and alternative separators); reject edges return None; the result joins the trusted directory with survivors only")
-    ctx.rule("R14.2", "every filesystem sink in send_from_directory / SharedDataMiddleware receives only trusted configuration or safe_join(<trusted base>, ...) results, never the raw request-derived name")
+    ctx.rule("R14.2", "every filesystem sink in send_from_directory / SharedDataMiddleware receives only trusted configuration or safe_join(<trusted base>, ...) results, never the raw request-derived name; a safe_join result that passes through anything but a copy, a selection or os.path.join with trusted operands after the containment check is no longer trusted")
     ctx.rule("R14.3", "every safe_join result is tested for None before any use; the None edge ends in NotFound / (None, None); SharedDataMiddleware.__call__ calls the opener only when it is not None and otherwise falls through to the wrapped app")
     ctx.rule("R14.4", "secure_filename: the returned value passed a regex deletion whose kept alphabet is ASCII without separators and whitespace, and strip(<set containing '.'>) follows every operation that can delete characters")
     _safe_join_rule(ctx)
